@@ -242,6 +242,14 @@ class AST:
             out.append(t)
         return out
 
+    def public_bases_of(self, rec):
+        """base classes reachable by an implicit conversion outside the class: public inheritance only"""
+        out = []
+        for b in rec.get('bases', []):
+            if b.get('access', 'public') != 'public': continue
+            out.append(b['type'].get('desugaredQualType', b['type']['qualType']))
+        return out
+
     def find_functions(self, qname):
         return self.fn_by_qname.get(qname, [])
 
